@@ -10,7 +10,11 @@
    sequence striped last and the generic-versus-AVX2 comparison made by the harness
    ("backend-mismatch"), or an op of the history panicked (C04_striped_history: none may).
    DIFF: the observation differs from the extracted model's (matrix, len, wrap,
-   Index results incl. panics, counts) although the property checker passed. *)
+   Index results incl. panics, counts) although the property checker passed.
+   The model is run through step2 (PadHistory.v): configure / configure_wrap / Index /
+   count_symbol(s) are the TRANSLATED statement lists of seq.rs (SeqT.v over GenSeq.v);
+   `sm` ops take the stream of draws from the observation (oracle), `nw` ops the matrix
+   from the input; after them the padding is arbitrary and check_C04_pad decides. *)
 open Stripe_model
 
 let nat_cache = Array.make 4096 O
@@ -48,14 +52,27 @@ let matrix_of_string s : nat list list =
 let backend_of = function
   | "g" -> BGeneric | "a" -> BAvx2
   | "dg" -> BDispatch AGeneric | "ds" -> BDispatch ASse2 | "da" -> BDispatch AAvx2
+  (* the dispatcher compiled for arm / aarch64: replayed through the generic pipeline when the
+     regenerated arm table (disp_stripe_arm) names the generic kernel; anything else cannot
+     be replayed on this host *)
+  | "ng" -> (match disp_stripe_arm NGeneric with KGeneric -> BGeneric | KAvx2 -> failwith "arm table: Generic arm names a kernel that cannot be replayed")
+  | "nn" -> (match disp_stripe_arm NNeon with KGeneric -> BGeneric | KAvx2 -> failwith "arm table: Neon arm names a kernel that cannot be replayed")
   | b -> failwith ("bad backend " ^ b)
 
-let parse_op s : op =
+type rawop = R1 of op | RSample of int | RNew of nat list list * int
+
+let parse_op c s : rawop =
   match String.split_on_char ':' s with
-  | ["si"; b; q] -> OStripeInto (backend_of b, seq_of_string q)
-  | ["st"; b; q] -> OStripe (backend_of b, seq_of_string q)
-  | ["cf"; m] -> OConfigure (nat_of_int (int_of_string m))
-  | ["cw"; k] -> OConfigureWrap (nat_of_int (int_of_string k))
+  | ["si"; b; q] ->
+      if (b = "ng" || b = "nn") && int_of_nat disp_lanes_arm <> c then failwith "arm dispatcher at a column count that is not its lane count";
+      R1 (OStripeInto (backend_of b, seq_of_string q))
+  | ["st"; b; q] ->
+      if (b = "ng" || b = "nn") && int_of_nat disp_lanes_arm <> c then failwith "arm dispatcher at a column count that is not its lane count";
+      R1 (OStripe (backend_of b, seq_of_string q))
+  | ["cf"; m] -> R1 (OConfigure (nat_of_int (int_of_string m)))
+  | ["cw"; k] -> R1 (OConfigureWrap (nat_of_int (int_of_string k)))
+  | ["sm"; _; n] -> RSample (int_of_string n)
+  | ["nw"; n; rows] -> RNew (matrix_of_string rows, int_of_string n)
   | _ -> failwith ("bad op " ^ s)
 
 let show_res_sym = function
@@ -87,26 +104,66 @@ let () =
           let c = int_of_string (get "C") in
           let kn = nat_of_int k and cn = nat_of_int c in
           let idx = List.map int_of_string (split ',' (try get "idx" with Not_found -> "")) in
-          let ops = List.map parse_op (split ';' (get "ops")) in
+          let ops = List.map (parse_op c) (split ';' (get "ops")) in
           let obs_items = split ';' obs in
           let model = ref (Ok s_default) in
           let last = ref [] in
+          (* after sample / new the padding is arbitrary: the weaker checker check_C04_pad
+             (C04_check_pad_sound) decides until the next stripe op *)
+          let pad = ref false in
           let rec walk n ops obs_items =
             match ops, obs_items with
             | [], [] -> ()
             | [], _ -> diff "too-many-observations"
             | _ :: _, [] -> diff (Printf.sprintf "op%d missing-observation" n)
-            | o :: orest, ob :: obrest ->
-                (match o with OStripeInto (_, s) | OStripe (_, s) -> last := s | _ -> ());
-                let m' = (match !model with Ok st -> step kn cn st o | r -> r) in
-                model := m';
+            | ro :: orest, ob :: obrest ->
+                let fields = String.split_on_char '|' ob in
+                let extra = (match fields with [_; _; _; _; _; _; _; _; _; x] -> x | _ -> "-") in
+                (* complete the op with the stream oracle of the observation *)
+                let o2 = (match ro with
+                  | R1 o -> O1 o
+                  | RNew (m, l) -> ONew (m, nat_of_int l)
+                  | RSample l ->
+                      (match String.split_on_char ',' extra with
+                       | [d; e] ->
+                           let draws = seq_of_string d and enc = seq_of_string e in
+                           if List.exists (fun x -> int_of_nat x >= k) draws then propfail (Printf.sprintf "op%d sample draw is not a symbol" n);
+                           (* EncodedSequence::sample(n) = the first n draws of the same stream *)
+                           if enc <> enc_sample (fun i -> List.nth draws (int_of_nat i)) (nat_of_int l) then
+                             propfail (Printf.sprintf "op%d encoded-sample is not the first %d draws" n l);
+                           OSample (draws, nat_of_int l)
+                       | _ -> if ob <> "P" then diff (Printf.sprintf "op%d no-stream-oracle" n); OSample ([], nat_of_int l))) in
+                let m' = (match !model with Ok st -> step2 kn cn st o2 | r -> r) in
+                (match o2, m' with
+                 | O1 (OStripeInto (_, q)), _ | O1 (OStripe (_, q)), _ -> last := q; pad := false
+                 | O1 _, _ -> ()
+                 | (OSample _ | ONew _), Ok _ -> last := seq_after1 kn cn !last o2; pad := true
+                 | _, _ -> ());
+                if ob = "E" then begin
+                  (* StripedSequence::new returned Err(InvalidData): the buffer is unchanged *)
+                  (match m' with
+                   | Err _ -> ()
+                   | _ -> (match o2 with
+                           | ONew (m, l) when List.length m * c >= int_of_nat l && List.for_all (fun r -> List.length r = c) m ->
+                               propfail (Printf.sprintf "op%d new rejects a matrix that holds the sequence" n)
+                           | _ -> diff (Printf.sprintf "op%d Err but the model succeeds" n)));
+                  walk (n + 1) orest obrest
+                end else begin
+                (match m', ob with
+                 | Err _, _ when ob <> "P" ->
+                     (match o2 with
+                      | ONew _ -> propfail (Printf.sprintf "op%d new accepts a matrix smaller than the sequence" n)
+                      | _ -> ())
+                 | _ -> ());
+                model := (match m' with Err _ -> !model | r -> r);
+                let m' = !model in
                 if ob = "P" then begin
                   (* no operation of a history may panic *)
                   propfail (Printf.sprintf "op%d unexpected-panic" n);
                   (match m' with Ok _ -> () | _ -> ())
                 end else begin
                   (match String.split_on_char '|' ob with
-                   | [len; wrap; rows; mstr; ix; counts; count1; bm; all] ->
+                   | [len; wrap; rows; mstr; ix; counts; count1; bm; all; _] ->
                        let ilen = int_of_string len and iwrap = int_of_string wrap and irows = int_of_string rows in
                        let imat = matrix_of_string mstr in
                        let ist = { mat = imat; slen = nat_of_int ilen; swrap = nat_of_int iwrap } in
@@ -128,10 +185,12 @@ let () =
                        let ob = { o_st = ist; o_index = o_index; o_all = o_all; o_counts = res_of_counts counts;
                                   o_count1 = res_of_counts count1; o_agree = agree } in
                        if irows <> List.length imat then propfail (Printf.sprintf "op%d rows()=%d but %d rows listed" n irows (List.length imat))
-                       else if not (check_C04 kn cn s ob) then begin
+                       else if not (if !pad then check_C04_pad kn cn s ob else check_C04 kn cn s ob) then begin
                          let lc = ints_string (lin_counts kn s) in
                          if List.exists (fun r -> List.length r <> c) imat then propfail (Printf.sprintf "op%d row-width" n)
-                         else if not (check_striped kn cn s ist) then
+                         else if !pad && not (check_pad kn cn s ist) then
+                           propfail (Printf.sprintf "op%d not-padded-striped len=%d/%d wrap=%d rows=%d C=%d" n ilen sl iwrap irows c)
+                         else if (not !pad) && not (check_striped kn cn s ist) then
                            propfail (Printf.sprintf "op%d not-striped len=%d/%d wrap=%d rows=%d C=%d" n ilen sl iwrap irows c)
                          else if not (check_wrap_rows kn ist) then propfail (Printf.sprintf "op%d wrap-row-shift" n)
                          else if o_all <> Ok s then begin
@@ -162,7 +221,7 @@ let () =
                             else if List.length mst.mat <> irows then diff (Printf.sprintf "op%d rows %d model %d" n irows (List.length mst.mat))
                             else if matrix_string mst.mat <> mstr then diff (Printf.sprintf "op%d matrix" n)
                             else begin
-                              let mix = String.concat "" (List.map (fun i -> show_res_sym (s_index kn cn mst (nat_of_int i))) idx) in
+                              let mix = String.concat "" (List.map (fun i -> show_res_sym (s_index_t kn cn mst (nat_of_int i))) idx) in
                               if mix <> ixs then diff (Printf.sprintf "op%d index %s model %s" n ixs mix);
                               (* the model's own counting loops (unary arithmetic, 0.02 s per call at
                                  L = 1000, 0.25 s at L = 3000) are evaluated for sequences up to 300 symbols
@@ -171,12 +230,12 @@ let () =
                                  counts are proved equal to those (C04_count_symbols_spec) *)
                               let heavy = sl <= 300 || obrest = [] in
                               if heavy then begin
-                              (match count_symbols kn cn mst with
+                              (match count_symbols_t kn cn mst with
                                | Ok l -> if ints_string l <> counts then diff (Printf.sprintf "op%d count_symbols model %s" n (ints_string l))
                                | _ -> if counts <> "P" then diff (Printf.sprintf "op%d count_symbols model-panics" n));
                               let c1 = Array.of_list (split ',' count1) in
                               List.iter (fun x ->
-                                  match count_symbol kn cn mst (nat_of_int x) with
+                                  match count_symbol_t kn cn mst (nat_of_int x) with
                                   | Ok v -> if Array.length c1 <> k || c1.(x) <> string_of_int (int_of_nat v) then
                                               diff (Printf.sprintf "op%d count_symbol(%d) model %d" n x (int_of_nat v))
                                   | _ -> if count1 <> "P" then diff (Printf.sprintf "op%d count_symbol model-panics" n))
@@ -188,6 +247,7 @@ let () =
                         | OutOfFuel -> diff (Printf.sprintf "op%d model-out-of-fuel" n))
                    | _ -> diff (Printf.sprintf "op%d bad-observation" n));
                   walk (n + 1) orest obrest
+                end
                 end
           in
           walk 0 ops obs_items
